@@ -1,12 +1,12 @@
 """C15 — point equality, normalisation and affine conversion respect the group element (structural clauses)."""
 from core import report
 from core.sm9 import Repo
-from . import shared, weight, grouplaw
+from . import shared, weight, grouplaw, field
 
 
 def run(ctx):
     repo = Repo(ctx.dev)
-    rules = grouplaw.rules_c15("C15", repo) + [weight.rule_weight_group("C15", repo), shared.rule_eq_derived(repo, ["crate::G1", "crate::G2", "crate::AffineG1", "crate::AffineG2"])]
+    rules = grouplaw.rules_c15("C15", repo) + [field.rule_tower_consts("C15", repo), weight.rule_weight_group("C15", repo), shared.rule_eq_derived(repo, ["crate::G1", "crate::G2", "crate::AffineG1", "crate::AffineG2"])]
     return report.emit(
         "C15", ctx.tier, ctx.seed, rules, ctx.started,
         "Abstract interpretation of G::eq and to_affine over the Jacobian-weight domain with path conditions: eq's truth table (identity cases first, true only after both the x- and "
